@@ -25,7 +25,10 @@
 (*            grammar below: command aliases, flag aliases, -x v / --x=v,   *)
 (*            flag order); the meaning of an invocation does not depend on  *)
 (*            it (DecodeRoundTrip), the real binary must agree              *)
-(*   usage  \in {"","noarg","timeout0","timeoutbad"}: further usage errors  *)
+(*   usage  \in {"","noarg","timeout0","timeoutbad","emptyarg"}: further    *)
+(*            usage errors (emptyarg: an empty word right after the command, *)
+(*            gtree mkdir "" --dry-run: a stray argument like any other)    *)
+(*   file "null": stdin is /dev/null (cron, CI): the empty document          *)
 (*   desc:  template --description                                          *)
 (*   sub may also be "version", "help", "none" (no argument at all: the     *)
 (*          help text, exit 0) and "bogus" (an unknown subcommand)          *)
@@ -115,6 +118,7 @@ Lexed(inv) ==
     [] inv.sub = "bogus" -> <<CmdTok("frobnicate")>>
     [] OTHER ->
          <<CmdTok(CmdNames[inv.sub][SpIdx(inv.sp)])>>
+         \o (IF inv.usage = "emptyarg" THEN <<ArgTok("")>> ELSE <<>>)
          \o (IF inv.unknown /\ inv.sp # "eq" THEN <<[k |-> "flag", name |-> "nosuchflag", dashes |-> 2, val |-> "", attached |-> FALSE]>> ELSE <<>>)
          \o FlagToks(inv)
          \o (IF inv.unknown /\ inv.sp = "eq" THEN <<[k |-> "flag", name |-> "nosuchflag", dashes |-> 2, val |-> "", attached |-> FALSE]>> ELSE <<>>)
@@ -142,7 +146,7 @@ RECURSIVE DecodeFlags(_, _, _)
 DecodeFlags(c, ts, acc) ==
   IF ts = <<>> THEN acc
   ELSE LET t == Head(ts) IN
-    IF t.k # "flag" THEN DecodeFlags(c, Tail(ts), [acc EXCEPT !.stray = TRUE])
+    IF t.k # "flag" THEN [acc EXCEPT !.stray = TRUE]      \* the first word that is not a flag ends flag parsing: the rest are arguments
     ELSE LET f == CanonFlag(c, t.name) IN
       IF f = "?" THEN [acc EXCEPT !.unknown = TRUE]
       ELSE IF f \notin BoolFlags /\ t.val = "" THEN [acc EXCEPT !.noarg = TRUE]
@@ -165,7 +169,7 @@ Meaning(inv) ==
              \cup {<<"massive-timeout", "0s">> : x \in IF inv.usage = "timeout0" THEN {1} ELSE {}}
              \cup {<<"massive-timeout", "soon">> : x \in IF inv.usage = "timeoutbad" THEN {1} ELSE {}}
              \cup {<<"watch", "true">> : x \in IF inv.watch THEN {1} ELSE {}}
-             \cup {<<"file", CASE inv.file = "dash" -> "-" [] inv.file = "existing" -> "in.md" [] OTHER -> "nope.md">> : x \in IF inv.file # "stdin" THEN {1} ELSE {}}
+             \cup {<<"file", CASE inv.file = "dash" -> "-" [] inv.file = "existing" -> "in.md" [] OTHER -> "nope.md">> : x \in IF inv.file \notin {"stdin", "null"} THEN {1} ELSE {}}
              \cup {<<"dry-run", "true">> : x \in IF inv.dryrun THEN {1} ELSE {}}
              \cup {<<"extension", e>> : e \in inv.exts}
              \cup {<<"target-dir", inv.target>> : x \in IF inv.target # "" THEN {1} ELSE {}}
@@ -174,9 +178,9 @@ Meaning(inv) ==
   IN IF inv.sub \in {"none", "help", "bogus"} THEN Acc0(inv.sub)
      ELSE [sub |-> inv.sub,
            \* an unknown flag written first ("long"/"short") hides every later flag; written last ("eq") it hides none
-           set |-> IF inv.unknown /\ inv.sp # "eq" THEN {} ELSE all,
-           stray |-> inv.stray /\ ~inv.unknown /\ inv.usage # "noarg",
-           unknown |-> inv.unknown,
+           set |-> IF (inv.unknown /\ inv.sp # "eq") \/ inv.usage = "emptyarg" THEN {} ELSE all,
+           stray |-> inv.usage = "emptyarg" \/ (inv.stray /\ ~inv.unknown /\ inv.usage # "noarg"),
+           unknown |-> inv.unknown /\ inv.usage # "emptyarg",
            noarg |-> inv.usage = "noarg" /\ ~inv.unknown]
 
 ---------------------------------------------------------------------------
